@@ -215,3 +215,42 @@ Proof.
     + contradiction.
   - vm_compute. reflexivity.
 Qed.
+
+(* C07_retry_complete with the positional content of the binding lists: under the same hypotheses,
+   distinct node ids that no library node carries, every loaded node is a node of the group and its
+   binding list is, child by child and in order, the INDEPENDENT READING of the node's children
+   ([read_child]: what the instance's references resolve to in the libraries / the node of the
+   group carrying the instantiated id) - for every definition order. *)
+Theorem C07_retry_complete_bindings :
+  forall mk sc o nodes errs (rank : ident -> nat),
+    NoDup (map n_id nodes) ->
+    (forall n u, In n nodes -> ~ In (u, n_id n) (lib_list o LNodes)) ->
+    (forall n c e loaded, In n nodes -> In c (n_children n) -> load_child sc o loaded c <> CRaise e) ->
+    (forall n t h, In n nodes -> In (NNode t h) (n_children n) ->
+       h = true /\ t <> 0%N /\ exists m, In m nodes /\ n_id m = t /\ rank t < rank (n_id n)) ->
+    exists l,
+      load_group mk sc o nodes [] errs = NFinished l [] errs /\
+      (forall n, In n nodes -> In (n_uid n, n_id n) (map lnode_obj l)) /\
+      (forall ln, In ln l -> exists n, In n nodes /\ fst ln = (n_uid n, n_id n) /\
+                             Forall2 (fun c b => read_child o nodes c = Some b) (n_children n) (snd ln)).
+Proof.
+  intros mk sc o nodes errs rank Hnd Hlib Hg Hdef.
+  apply (retry_complete_bindings mk sc o nodes errs rank Hnd Hlib); [|exact Hdef].
+  intros n Hin c e loaded Hc. apply (Hg n c e loaded Hin Hc).
+Qed.
+Print Assumptions C07_retry_complete_bindings.
+
+(* the extra hypotheses are met by the chain of C07_retry_complete_hypotheses_met *)
+Example C07_retry_complete_bindings_hypotheses_met :
+  let o : objs := [(LGeometry, (100, 10))]%N in
+  let nodes := [TNode 201 21 [NNode 22 true]; TNode 202 22 [NNode 23 true; NInst (Ref LGeometry 10 true SUrl) []];
+                TNode 203 23 []]%N in
+  NoDup (map n_id nodes) /\ (forall n u, In n nodes -> ~ In (u, n_id n) (lib_list o LNodes)) /\
+  map (read_child o nodes) [NNode 23%N true; NInst (Ref LGeometry 10%N true SUrl) []]
+    = [Some (BNode 203%N); Some (BInst 100%N [])].
+Proof.
+  simpl. split; [|split].
+  - repeat constructor; simpl; intuition discriminate.
+  - intros n u _ H. exact H.
+  - vm_compute. reflexivity.
+Qed.
